@@ -5,12 +5,15 @@ CONSTANTS
   BugSharedInstance = FALSE
   BugCloneShares = FALSE
   BugShCoupled = FALSE
+  BugRowsFromSeed = FALSE
+  ChildInit = FALSE
   Focus = "all"
   Emit = FALSE
 VIEW AbstractView
 INVARIANT Reproducible
 INVARIANT SeedsDiffer
 INVARIANT NoDeviateUsedTwice
+INVARIANT ObjectNeverReusesADeviate
 INVARIANT GlobalUntouched
 PROPERTY Isolated
 PROPERTY GlobalOnlyByGlobalActions
